@@ -483,8 +483,8 @@ add("C05", "_try_parse stops restoring the index", P,
     "        finally:\n            if not this or retreat:\n                self._retreat(index)\n            self.error_level = error_level",
     "        finally:\n            self.error_level = error_level", "C05.b")
 add("C05", "remove the _match_set guard before a table lookup", P,
-    "        if self._match_set(self.RANGE_PARSERS):\n            expression = self.RANGE_PARSERS[self._prev.token_type](self, this)",
-    "        if self._curr:\n            self._advance()\n            expression = self.RANGE_PARSERS[self._prev.token_type](self, this)", "C05.c")
+    "            if self._match_set(self.RANGE_PARSERS):\n                expression = self.RANGE_PARSERS[self._prev.token_type](self, this)",
+    "            if self._match_set(self.RANGE_PARSERS) or self._match(TokenType.ISNULL):\n                expression = self.RANGE_PARSERS[self._prev.token_type](self, this)", "C05.c")
 add("C05", "match on TERM but index FACTOR", P,
     "        while self._match_set(factor):\n", "        while self._match_set(self.TERM):\n", "silent")
 CATALOG.pop()
